@@ -235,8 +235,14 @@ type customRecipientL struct {
 
 func (c *customRecipientL) WrapWithLabels(fileKey []byte) ([]*age.Stanza, []string, error) {
 	s, err := c.Wrap(fileKey)
-	// hand out a copy: Encrypt sorts the slice in place
-	return s, append([]string(nil), c.labels...), err
+	// hand out a copy: Encrypt sorts the slice in place. An empty label set is handed out as a nil slice or
+	// as an empty non-nil slice (decided by the recipient's stanza shape): both are "no labels".
+	out := make([]string, len(c.labels))
+	copy(out, c.labels)
+	if len(out) == 0 && len(c.stanzas) > 0 && len(c.stanzas[0].Args)%2 == 0 {
+		out = nil
+	}
+	return s, out, err
 }
 
 func renderAgeStanza(s *age.Stanza) string {
@@ -272,6 +278,17 @@ func newCustom(stanzas []*age.Stanza, labels []string, hasLabels bool, fail bool
 
 func greaseStanza(r *h.Rand) *age.Stanza {
 	s := &age.Stanza{Type: "grease-" + validStr(r)}
+	switch r.Intn(6) {
+	case 0:
+		s.Type = validStr(r) + "-grease"
+	case 1:
+		s.Type = "grease"
+	case 2:
+		s.Type = validStr(r)
+	}
+	if s.Type == "X25519" || s.Type == "scrypt" || s.Type == "ssh-rsa" || s.Type == "ssh-ed25519" {
+		s.Type += "x"
+	}
 	for j := r.Intn(3); j > 0; j-- {
 		s.Args = append(s.Args, validStr(r))
 	}
@@ -468,3 +485,20 @@ func hexDecode(s string) ([]byte, error) {
 func bech32Decode(s string) (string, []byte, error) { return verifhook.Bech32Decode(s) }
 
 func bech32Encode(hrp string, data []byte) (string, error) { return verifhook.Bech32Encode(hrp, data) }
+
+// wrapperRecipient hands Encrypt the stanzas of an inner recipient placed among companion stanzas
+type wrapperRecipient struct {
+	inner  age.Recipient
+	before []*age.Stanza
+	after  []*age.Stanza
+}
+
+func (w *wrapperRecipient) Wrap(fileKey []byte) ([]*age.Stanza, error) {
+	ss, err := w.inner.Wrap(fileKey)
+	if err != nil {
+		return nil, err
+	}
+	out := append([]*age.Stanza(nil), w.before...)
+	out = append(out, ss...)
+	return append(out, w.after...), nil
+}
